@@ -234,7 +234,10 @@ def r19_3(ctx):
         f = dict(rts[0][4])
         ok = f.get('buf') == ('mem', 3) and f.get('width') == ('param', 1) and f.get('height') == ('param', 2)
         rs = [ct for bi, d, ct in calls_in(ctx, b) if d and d.endswith('::resize')]
+        rbs = [bi for bi, d, ct in calls_in(ctx, b) if d and d.endswith('::resize')]
         okr = len(rs) == 1 and strip_all(rs[0][2][0]) == ('mem', 3)
+        # ... on every path: a vector that is longer than width*height is cut down as well (the buffer is the surface)
+        okr = okr and an.cfg.must_pass_through(0, set(rbs))[0]
         if okr:
             n = poly(rs[0][2][1])
             okr = n == Poly.leaf(('param', 1)) * Poly.leaf(('param', 2)) and const_val(rs[0][2][2]) == 0
